@@ -113,6 +113,9 @@ static int T_eq(const struct T *x, const struct T *y) { return sv_eq(x->a, y->a)
 void h_SEQUENCE_decode_ber(void) {
 	VF_BYTES(buf, VF_N); VF_SCALAR(size_t, size);
 	__CPROVER_assume(size <= VF_N);
+#ifdef VF_SIZE
+	size = VF_SIZE;        /* one obligation per input length: an exact-size heap buffer of symbolic size exhausts the SAT back end */
+#endif
 	VF_PRIM_ONLY(buf);
 	setup();
 	unsigned char *in = (unsigned char *)malloc(size); __CPROVER_assume(in != 0);
